@@ -76,22 +76,25 @@ check("C11", "exploration",
 check("C10", "exploration",
       "Differential simulation across real interpreters: a seeded set of operations (parsers on partially / permuted "
       "documented signatures, all emitters, the file commands on private project copies) is run in K fresh interpreters "
-      "with K different PYTHONHASHSEED values (incl. 'random') and K different seeded call histories with repetitions; "
-      "every occurrence of an operation must hash to the same canonical outcome (order-preserving). Disagreements are "
-      "reduced to two interpreters, classified as hash-seed or call-history dependence, and the preceding calls are "
+      "with K different PYTHONHASHSEED values (incl. 'random'), K different seeded call histories with repetitions and "
+      "a directory-listing policy each (os.listdir/os.scandir return entries in the file system's own, sorted, reversed "
+      "or a seeded order: the directory-order seam); every occurrence of an operation must hash to the same canonical "
+      "outcome (order-preserving; files, return value and printed output). Disagreements are reduced to two "
+      "interpreters, classified as directory-order, hash-seed or call-history dependence, and the preceding calls are "
       "delta-debugged.",
-      "Inputs, seeds and histories are sampled; directory-enumeration order is not varied; for raising operations only "
-      "the exception type is compared.",
-      "deterministic simulation: multi-interpreter differential over hash seeds x seeded call histories", "DESIGN.md §3 C10")
+      "Inputs, seeds, histories and listing orders are sampled; for raising operations only the exception type is "
+      "compared.",
+      "deterministic simulation: multi-interpreter differential over hash seeds x seeded call histories x directory "
+      "listing orders", "DESIGN.md §3 C10")
 
 check("C18", "exploration",
       "Import histories after a simulated interpreter restart: every module as first import in a real fresh interpreter "
-      "(exhaustive, both tiers); ordered pairs in both orders after an in-process restart with H1 (imports succeed) and H2 "
-      "(same public names in either order) — all pairs in the thorough tier (exhaustive: true), anchor pairs plus a "
-      "seeded sample in the quick tier, 5% cross-checked in real interpreters; seeded longer histories in two "
-      "permutations. Failing histories are minimised and confirmed in real interpreters.",
-      "The in-process restart (sys.modules purge) is a stub of a real restart, validated against real interpreters in "
-      "every run; third-party modules stay loaded.",
+      "(exhaustive, both tiers); every ordered pair in both orders (exhaustive, both tiers) after a fork-based restart "
+      "(a parent that never imports cdd forks one child per history) with H1 (imports succeed) and H2 (same public names "
+      "bound in every loaded cdd module in either order), a sample cross-checked in real interpreters; seeded longer "
+      "histories in two permutations. Failing histories are minimised and confirmed in real interpreters.",
+      "The forked child is a stand-in for a fresh interpreter with the third-party modules already loaded (validated "
+      "against real interpreters in every run); histories longer than two are sampled.",
       "deterministic simulation: interpreter-restart model, exhaustive singles/pairs + seeded import histories",
       "DESIGN.md §3 C18")
 
